@@ -170,6 +170,11 @@ def check_case(res, cid, spec, steps, script, gs_lines, sel_lines, stats):
             if t[0] == "refsurp" and "scale:" in t and st.exc is not None and "scale_correction" in st.exc[1]:
                 viol("scale-size-rejected", "documented scale_correction size rejected: %s -> %s" % (st.cmd, st.exc[1]))
             continue
+        if t[0] == "dump" and (st.exc is not None or "truncated" in st.obs):
+            # the child reached its limit while printing a (huge) state, e.g. an anisotropic refinement that proposes 2e7 points:
+            # the observation is incomplete and the rest of the case was not executed
+            stats["cases_cut_short_by_the_case_limit"] = stats.get("cases_cut_short_by_the_case_limit", 0) + 1
+            return
         if t[0] != "dump" or "meta" not in st.obs:
             continue
         m = st.obs["meta"]
@@ -458,6 +463,7 @@ def run(res, tier, seed, replay_script=None):
         res.violation("extraction", "extraction of the model failed", {"kind": "proof-break", "log": elog[-2000:]}, no_input=True)
 
     res.coverage["slow_calls_completed_under_the_long_limit_skipped"] = stats.get("slow_calls_skipped", 0)
+    res.coverage["cases_cut_short_by_the_case_limit"] = stats.get("cases_cut_short_by_the_case_limit", 0)
     res.coverage.update({
         "evaluations": len(cases) + len(ucases), "distinct_nontrivial": nontrivial,
         "rule": "histories = make (random family/rule/dims/depth/order/limits/transform) ; load ; 2-9 random ops among surplus/anisotropic "
